@@ -55,13 +55,16 @@ class ClipModel(darsia.Model):
         self,
         parameters: np.ndarray,
         dofs: Optional[list[Literal["min_value", "max_value"]] | Literal["all"]] = None,
-    ) -> None:
+    ) -> int:
         """
         Short cut to update scaling and offset parameters using a
         general function signature.
 
         Args:
             parameters (np.ndarray): 2-array containing min and max values.
+
+        Returns:
+            int: number of leading entries of parameters that have been used.
 
         """
         if (
@@ -70,10 +73,13 @@ class ClipModel(darsia.Model):
             or set(dofs) == set(["min_value", "max_value"])
         ):
             self.update(min_value=parameters[0], max_value=parameters[1])
+            return 2
         elif set(dofs) == set(["min_value"]):
             self.update(min_value=parameters[0])
+            return 1
         elif set(dofs) == set(["max_value"]):
             self.update(max_value=parameters[0])
+            return 1
         else:
             raise ValueError("invalid list of degrees of freedom")
 
